@@ -1273,6 +1273,14 @@ def m_slice_first(it, args, fr, callee):
     return some(Ref(s.buf, s.start)) if n > 0 else none()
 
 
+@model('std::slice::from_ref', 'core::slice::from_ref', 'slice::from_ref', 'std::slice::from_mut', 'core::slice::from_mut', 'slice::from_mut')
+def m_slice_from_ref(it, args, fr, callee):
+    r = args[0]
+    if type(r) is not Ref:
+        raise Unsupported('slice::from_ref of %r' % (r,))
+    return Slice(r.cont, r.key, 1)
+
+
 @model('core::slice::split_first', 'slice::split_first', 'core::slice::split_first_mut', 'slice::split_first_mut')
 def m_slice_split_first(it, args, fr, callee):
     s = as_slice(args[0])
